@@ -89,6 +89,10 @@ def ob_seq(e1: int, e2: int, e3: int, e4: int) -> bool:
         if state == S.IDLE and real_ev in ('crt', 'holdt', 'kat'):
             # stale timers in Idle: the RFC ignores them
             return REF.check(state, 'stale_timer', {}, info['obs'])
+        if real_ev == 'crt' and state in (S.OPENSENT, S.OPENCONFIRM, S.ESTABLISHED):
+            # the agent's own ConnectRetryTimer expired during a session: RFC 4271 stops it when the TCP connection
+            # comes up, so in a history from boot this event cannot happen
+            return False
         oev, sub = SC.oracle_event(real_ev)
         return REF.check(state, oev, {'sub': sub, 'hold': info['hold']}, info['obs'])
     return SC.run_seq(P, [e1, e2, e3, e4], step_check)
